@@ -22,6 +22,7 @@ CHUNK = 0x4000
 PREFIXES = ["field_", "f"]
 PAIR_NAMES = ["name", "client", "client_query", "client_header", "VALUE_1", "value 1", "2", "-", "+ab", "ab!", "a b", "a_b", "a-b", "a.b", "aB", "AB", "Ab", "ab", "A_B", "a__b", "_ab", "ab_", "1a", "_1a", "a1", "A1", "ﬁ", "fi",
               "é", "É", "class", "Class", "class_", "list", "List", "self", "", "-", "_", "match", "type_", "type"]
+PAIR_NAMES = list(dict.fromkeys(PAIR_NAMES))        # a name listed twice would pair with itself (two identical names are one name, not a merge)
 END2END = ["a²", "٣x", "x٣", "௰", "a௰", "ﱠ", "aﱠb", "·a", "a·", "℘", "ªb", "x́", "́x", "𝒳", "ǅ", "a‍b", "ß", "ſ", "İ", "ı",
            "a\ud800b", "\U000e0041", "Ⅷ", "a　b"]
 
